@@ -1,6 +1,7 @@
 import PyYetiVerif.Lemmas.UsetTranBlocks
 /-!
-What `upSelect` / `procMset` / `selSet` (`Model/UsetTran.lean`) select: the picked rows are rows of the set.
+What `upSelectWith` / `procMsetWith` / `selSet` (`Model/UsetTran.lean`) select: the picked rows are rows of the set;
+the g-set table `iddofG` (`rowsOfMask`).
 -/
 set_option linter.constructorNameAsVariable false
 set_option linter.unusedSectionVars false
@@ -24,16 +25,58 @@ theorem selSet_spec {iddof : List κ} {xs : List Nat} {dofr : List κ} {g : Bool
     subst h
     exact takeIdx_ok hx
 
-theorem procMset_spec {mk : Masks} {tbl : List Row} {gm : Option (M α)} {dofr : List κ}
-    {m' : List Nat} {g' : M α} (h : procMset mkKey mk tbl gm dofr = .ok (some (m', g'))) :
+theorem mksetpv_all_true {words : List Nat} {major minor : Nat}
+    (h : ∀ w ∈ words, inSet w major = true ∧ inSet w minor = true) :
+    mksetpv words major minor = .ok (words.map fun _ => true) := by
+  unfold mksetpv
+  rw [if_neg, List.filter_eq_self.mpr (fun w hw => (h w hw).1)]
+  · congr 1
+    apply List.map_congr_left
+    intro w hw
+    exact (h w hw).2
+  · intro hany
+    obtain ⟨w, hw, hb⟩ := List.any_eq_true.mp hany
+    simp [(h w hw).1] at hb
+
+theorem rowsOfMask_all_true : ∀ (tbl : List Row), rowsOfMask tbl (tbl.map fun _ => true) = tbl
+  | [] => rfl
+  | r :: t => by
+      have ih := rowsOfMask_all_true t
+      unfold rowsOfMask at ih ⊢
+      simp only [List.map_cons, List.zip_cons_cons, List.filter_cons_of_pos, ih]
+
+theorem rowsOfMask_positions : ∀ (tbl : List Row) (pv : List Bool) (k : Nat), pv.length = tbl.length →
+    List.Forall₂ (fun i r => ∃ j, i = k + j ∧ tbl[j]? = some r)
+      (((pv.zipIdx k).filter (·.1)).map (·.2)) (rowsOfMask tbl pv)
+  | [], [], _, _ => by simp [rowsOfMask]
+  | [], _ :: _, _, h => by simp at h
+  | _ :: _, [], _, h => by simp at h
+  | r :: t, b :: pv, k, h => by
+      have ih := rowsOfMask_positions t pv (k + 1) (by simpa using h)
+      have ih' : List.Forall₂ (fun i r' => ∃ j, i = k + j ∧ (r :: t)[j]? = some r')
+          (((pv.zipIdx (k + 1)).filter (·.1)).map (·.2)) (rowsOfMask t pv) :=
+        ih.imp fun i r' ⟨j, hi, hj⟩ => ⟨j + 1, by omega, by simpa using hj⟩
+      unfold rowsOfMask at ih' ⊢
+      cases b with
+      | true =>
+          simp only [List.zipIdx_cons, List.filter_cons_of_pos, List.map_cons, List.zip_cons_cons]
+          exact .cons ⟨0, rfl, rfl⟩ ih'
+      | false =>
+          simp only [List.zipIdx_cons, List.zip_cons_cons, Bool.false_eq_true, not_false_eq_true,
+            List.filter_cons_of_neg]
+          exact ih'
+
+theorem procMsetWith_spec {idd : Except TErr (List κ)} {mk : Masks} {tbl : List Row} {gm : Option (M α)} {dofr : List κ}
+    {m' : List Nat} {g' : M α} (h : procMsetWith idd mk tbl gm dofr = .ok (some (m', g'))) :
     ∃ (m : List Nat) (gmM : M α) (pv : List Nat), setPos tbl mk.g mk.m = .ok m ∧ gm = some gmM ∧
       List.Forall₂ (fun i p => m[i]? = some p) pv m' ∧ g'.c = gmM.c ∧
       List.Forall₂ (fun i y => gmM.r[i]? = some y) pv g'.r := by
-  unfold procMset at h
+  unfold procMsetWith at h
   obtain ⟨m, hm, h⟩ := bind_ok h
   split at h
   · cases h
-  · obtain ⟨pv, _, h⟩ := bind_ok h
+  · obtain ⟨iddof, _, h⟩ := bind_ok h
+    obtain ⟨pv, _, h⟩ := bind_ok h
     split at h
     · cases h
     · obtain ⟨m'', hm', h⟩ := bind_ok h
@@ -47,9 +90,9 @@ theorem procMset_spec {mk : Masks} {tbl : List Row} {gm : Option (M α)} {dofr :
           obtain ⟨hc, hr⟩ := rowsAt_ok hg
           exact ⟨m, g, pv, hm, rfl, takeIdx_ok hm', hc, hr⟩
 
-/-- the selections of `formtran` (`se != 0`): every picked row is a row of its set -/
-theorem upSelect_spec {mk : Masks} {tbl : List Row} {got goq gm : Option (M α)} {dofr : List κ}
-    {x : UpSel α} (h : upSelect mkKey mk tbl got goq gm dofr = .ok x) :
+/-- the selections of `formtran` (`se != 0`): every picked row is a row of its set (for any evaluation `idd` of the `[id, dof]` table) -/
+theorem upSelectWith_spec {idd : Except TErr (List κ)} {mk : Masks} {tbl : List Row} {got goq gm : Option (M α)} {dofr : List κ}
+    {x : UpSel α} (h : upSelectWith idd mk tbl got goq gm dofr = .ok x) :
     ∃ (t o q s : List Nat), setPos tbl mk.g mk.t = .ok t ∧ setPos tbl mk.g mk.o = .ok o ∧
       setPos tbl mk.g mk.q = .ok q ∧ setPos tbl mk.g mk.s = .ok s ∧
       List.Forall₂ (fun i p => t[i]? = some p) x.pvdoft x.t' ∧
@@ -58,12 +101,13 @@ theorem upSelect_spec {mk : Masks} {tbl : List Row} {got goq gm : Option (M α)}
       List.Forall₂ (fun i p => s[i]? = some p) x.pvdofs x.s' ∧
       (∀ g, got = some g → x.gotM = g) ∧ (∀ g, goq = some g → x.goqM = g) ∧
       (got = none → ∀ r ∈ x.gotM.r, r.length = x.gotM.c) ∧ (goq = none → ∀ r ∈ x.goqM.r, r.length = x.goqM.c) ∧
-      x.pm = (match procMset mkKey mk tbl gm dofr with | .ok v => v | .error _ => none) ∧
-      (∃ v, procMset mkKey mk tbl gm dofr = .ok v) ∧
+      x.pm = (match procMsetWith idd mk tbl gm dofr with | .ok v => v | .error _ => none) ∧
+      (∃ v, procMsetWith idd mk tbl gm dofr = .ok v) ∧
       (∀ y, x.pm = some y → setPos tbl mk.n mk.t = .ok x.tnoq.1 ∧ setPos tbl mk.n mk.o = .ok x.tnoq.2.1 ∧
         setPos tbl mk.n mk.q = .ok x.tnoq.2.2) := by
-  unfold upSelect at h
+  unfold upSelectWith at h
   obtain ⟨t, ht, h⟩ := bind_ok h
+  obtain ⟨iddof, _, h⟩ := bind_ok h
   obtain ⟨st, hst, h⟩ := bind_ok h
   obtain ⟨o, ho, h⟩ := bind_ok h
   obtain ⟨so, hso, h⟩ := bind_ok h
